@@ -114,6 +114,7 @@ type Drv struct {
 	pubG sync.Map // pub -> goroutine id
 	mu   sync.Mutex
 	ctxs map[string]ctxPair
+	gates map[string]*gate
 	nReg atomic.Int64
 	nPub atomic.Int64
 	nTok atomic.Int64
@@ -195,6 +196,45 @@ func ctxPub(ctx context.Context, k ctxKey) int {
 		return v
 	}
 	return -1
+}
+
+// gate lets a script nest whole operations of one goroutine inside a handler callback of another one,
+// deterministically: the handler parks, the other goroutine works, then releases it.  All waits are bounded, so
+// a gate that is never reached (the handler was not invoked) cannot hang the script.
+type gate struct {
+	parked  chan struct{}
+	release chan struct{}
+	once1   sync.Once
+	once2   sync.Once
+}
+
+func (g *gate) park() {
+	g.once1.Do(func() { close(g.parked) })
+	select {
+	case <-g.release:
+	case <-time.After(2 * time.Second):
+	}
+}
+func (g *gate) awaitParked() {
+	select {
+	case <-g.parked:
+	case <-time.After(300 * time.Millisecond):
+	}
+}
+func (g *gate) unpark() { g.once2.Do(func() { close(g.release) }) }
+
+func (d *Drv) gate(name string) *gate {
+	d.mu.Lock()
+	defer d.mu.Unlock()
+	if d.gates == nil {
+		d.gates = map[string]*gate{}
+	}
+	g, ok := d.gates[name]
+	if !ok {
+		g = &gate{parked: make(chan struct{}), release: make(chan struct{})}
+		d.gates[name] = g
+	}
+	return g
 }
 
 // NewDrv builds a bus with the given configuration.
@@ -313,6 +353,15 @@ func (d *Drv) Exec(g int, o Op) {
 		return
 	case "sleep":
 		time.Sleep(time.Duration(o.Yield) * time.Microsecond)
+		return
+	case "park": // a handler body parks itself until another goroutine has done its operations (or 2 s have passed)
+		d.gate(o.Ctx).park()
+		return
+	case "whenparked": // wait (at most 300 ms) until the handler body with that gate is parked
+		d.gate(o.Ctx).awaitParked()
+		return
+	case "unpark":
+		d.gate(o.Ctx).unpark()
 		return
 	case "pub":
 		p := int(d.nPub.Add(1))
